@@ -195,6 +195,10 @@ CallS == {S(Call("h", <<>>)), S(Call("w", <<Var("b")>>)), S(Call("w", <<Num(0)>>
 TestsOn(r) == {If(r, ThenElse[1], ThenElse[2]), If(Un("!", r), <<Set("sb", 1)>>, <<Set("sb", 2)>>), If(Bin("==", r, Num(0)), <<Set("sb", 1)>>, <<>>),
                S(Asg("=", Var("t"), r)), If(Bin("<", r, Num(3)), <<Set("sb", 1)>>, <<Set("sb", 2)>>)}
 F5c == UNION {{Prog("F5c", <<S(Asg("=", r, v)), cl, t>>) : v \in {Var("a"), Idx("arr", Num(2)), Num(0), Num(5)}, cl \in CallS, t \in TestsOn(r)} : r \in {Var("X"), Var("c"), Var("s")}}
+\* F5h: the result of a call is stored and then tested: the test relies on the flags the callee left behind (callees whose
+\* return expression postpones an increment, or restores an index register after the value was loaded)
+RetE == {Call("ri", <<>>), Call("rd2", <<Num(2)>>), Call("rd2", <<Var("b")>>), Call("ra", <<Num(1)>>), Call("ra", <<Var("b")>>), Call("f", <<Num(3)>>), Call("k", <<>>)}
+F5h == UNION {{Prog("F5h", <<S(Asg("=", d, c1)), t>>) : c1 \in RetE, t \in TestsOn(d)} : d \in {Var("a"), Var("sb"), Var("X")}}
 \* F5d: a function with several returns of constants, followed by a constant assignment (a belief held on one return
 \* path must not reach the code after the call, in particular once the function is expanded inline)
 F5d == {Prog("F5d", <<S(Asg("=", d, Call("r2", <<>>))), S(Asg("=", v, Num(kk)))>>) : d \in {Var("c"), Var("X")}, v \in {Var("b"), Var("Y"), Var("sa")}, kk \in {1, 2, 0}}
@@ -497,7 +501,7 @@ RW == {Pair2("commute", <<S(Asg("=", d, Bin(op, l, r)))>>, <<S(Asg("=", d, Bin(o
       \cup {Pair2("callbody", <<S(Asg("=", d, Call("g", <<x, y>>)))>>, <<S(Asg("=", d, Bin("-", x, y)))>>) : d \in {Var("a"), Var("Y")}, x \in Arg, y \in {Var("b"), Num(1)}}
       \cup {Pair2("callbody", <<S(Call("h", <<>>)), S(Asg("=", Var("b"), Var("a")))>>, <<S(Inc(FALSE, 1, Var("a"))), S(Asg("=", Var("b"), Var("a")))>>)}
       \cup {Pair2("callbody", <<S(Call("w", <<x>>))>>, <<S(Asg("=", Var("c"), x))>>) : x \in Arg}
-AllFams == FO \cup F2e \cup F5g \cup F5f \cup F3e \cup F7dAll \cup F1n \cup F2d \cup FK \cup F5e \cup FT \cup FG \cup FP \cup FW \cup F3d \cup F4b \cup F5d \cup F8f \cup F8h \cup F8g \cup FL \cup F5c \cup F6 \cup F8 \cup F9 \cup F1a \cup F1b \cup F1c \cup F1d \cup F1e \cup F1f \cup F1g \cup F2a \cup F2b \cup F2c \cup F2z \cup F2s
+AllFams == FO \cup F2e \cup F5h \cup F5g \cup F5f \cup F3e \cup F7dAll \cup F1n \cup F2d \cup FK \cup F5e \cup FT \cup FG \cup FP \cup FW \cup F3d \cup F4b \cup F5d \cup F8f \cup F8h \cup F8g \cup FL \cup F5c \cup F6 \cup F8 \cup F9 \cup F1a \cup F1b \cup F1c \cup F1d \cup F1e \cup F1f \cup F1g \cup F2a \cup F2b \cup F2c \cup F2z \cup F2s
            \cup F3a \cup F3b \cup F3c \cup F4 \cup F5a \cup F5b \cup F7a \cup F7b \cup F7c
 Family ==
   CASE Fam = "ALL" -> AllFams [] Fam = "RW" -> RW [] Fam = "FX" -> FX \cup FS
@@ -506,7 +510,7 @@ Family ==
     [] Fam = "F2a" -> F2a [] Fam = "F2b" -> F2b [] Fam = "F2c" -> F2c [] Fam = "F2z" -> F2z [] Fam = "F2s" -> F2s
     [] Fam = "F3a" -> F3a [] Fam = "F3b" -> F3b [] Fam = "F3c" -> F3c
     [] Fam = "F4" -> F4 [] Fam = "F5a" -> F5a [] Fam = "F5b" -> F5b
-    [] Fam = "F7a" -> F7a [] Fam = "F7b" -> F7b [] Fam = "F7c" -> F7c [] Fam = "FW" -> FW [] Fam = "FL" -> FL [] Fam = "F5c" -> F5c [] Fam = "F6" -> F6 [] Fam = "F8" -> F8 [] Fam = "F8g" -> F8g [] Fam = "FP" -> FP [] Fam = "FG" -> FG [] Fam = "FT" -> FT [] Fam = "F5e" -> F5e [] Fam = "FK" -> FK [] Fam = "F1n" -> F1n [] Fam = "F2d" -> F2d [] Fam = "F7d" -> F7dAll [] Fam = "F3e" -> F3e [] Fam = "F5f" -> F5f [] Fam = "F5g" -> F5g [] Fam = "F2e" -> F2e [] Fam = "FO" -> FO [] Fam = "F8f" -> F8f [] Fam = "F3d" -> F3d [] Fam = "F4b" -> F4b [] Fam = "F5d" -> F5d [] Fam = "F9" -> F9
+    [] Fam = "F7a" -> F7a [] Fam = "F7b" -> F7b [] Fam = "F7c" -> F7c [] Fam = "FW" -> FW [] Fam = "FL" -> FL [] Fam = "F5c" -> F5c [] Fam = "F6" -> F6 [] Fam = "F8" -> F8 [] Fam = "F8g" -> F8g [] Fam = "FP" -> FP [] Fam = "FG" -> FG [] Fam = "FT" -> FT [] Fam = "F5e" -> F5e [] Fam = "FK" -> FK [] Fam = "F1n" -> F1n [] Fam = "F2d" -> F2d [] Fam = "F7d" -> F7dAll [] Fam = "F3e" -> F3e [] Fam = "F5f" -> F5f [] Fam = "F5g" -> F5g [] Fam = "F5h" -> F5h [] Fam = "F2e" -> F2e [] Fam = "FO" -> FO [] Fam = "F8f" -> F8f [] Fam = "F3d" -> F3d [] Fam = "F4b" -> F4b [] Fam = "F5d" -> F5d [] Fam = "F9" -> F9
 
 VARIABLE prog
 Init == prog \in Family
